@@ -226,10 +226,67 @@ class Req:
         self.of = None
         self.nested = None         # request step to issue from inside this request's next callback
         self.nested_hooked = False
+        self.group = None          # ObjGroup when issued through subscribe(obj) / register(obj)
+        self.reply_ctx = None
+
+
+class ObjGroup:
+    """One subscribe(obj) / register(obj) call: several requests, ONE returned future (a list of per-request results)."""
+
+    def __init__(self, label, kind):
+        self.label = label
+        self.kind = kind
+        self.members = []          # model records in order of issue (= wire order)
+        self.fut = None
+        self.outcome = None
+        self.unpacked = False
+
+
+class ListOutcome:
+    """Per-request view of an object-form call's single future (filled when that future completes)."""
+
+    def __init__(self):
+        self.results = []
 
 
 class Abort(Exception):
     pass
+
+
+class SyncTransport:
+    """ITransport wrapper placed between the session and its REAL transport: everything is delegated, but when the running step
+    asks for it, the scripted router's reply to the request just sent is handed to ``session.onMessage()`` BEFORE ``send()``
+    returns - what an in-process / loopback router transport does.  The request still travels through the real transport (it is
+    read back from the wire as a plain list), the reply is encoded with the plain codec and parsed by the transport's own serializer,
+    exactly like an incoming frame.  Exceptions of onMessage propagate out of send(), as on a loopback transport."""
+
+    def __init__(self, real, run):
+        object.__setattr__(self, "_c04_real", real)
+        object.__setattr__(self, "_c04_run", run)
+
+    def __getattr__(self, name):
+        return getattr(object.__getattribute__(self, "_c04_real"), name)
+
+    def __setattr__(self, name, value):
+        setattr(object.__getattribute__(self, "_c04_real"), name, value)
+
+    def send(self, msg):
+        real = object.__getattribute__(self, "_c04_real")
+        run = object.__getattribute__(self, "_c04_run")
+        real.send(msg)
+        plan = run.sync_plan
+        if plan is None or plan["msgs"] is not None:
+            return
+        rp = run.rp
+        plan["msgs"] = msgs = rp.recv()
+        rq = run.reqs.get(plan["label"])
+        if rq is None or len(msgs) != 1 or not isinstance(msgs[0], list) or len(msgs[0]) < 2 or msgs[0][0] != REQ_CODE[rq.kind]:
+            return
+        rq.wid = msgs[0][1]
+        reply, args, kwargs = run.build_reply(rq, plan["reply"])
+        plan["sent"] = (reply, args, kwargs)
+        for m in real._serializer.unserialize(rp.dumps(reply), rp.binary):
+            run.s.onMessage(m)
 
 
 def _session_class():
@@ -268,6 +325,9 @@ class Run:
         self.orphans = {}
         self.orphan_ids = set()
         self.local_unsubs = 0
+        self.inflight_seen = False
+        self.sync_plan = None
+        self.groups = []
         self.nested_issued = []
         self.tolerated = dict.fromkeys(KINDS, 0)     # records the library kept after a subscribe/register whose send() raised (grey zone)
 
@@ -339,20 +399,26 @@ class Run:
                        "session.%s holds %d entries, the model expects %d (%s)" % (TABLE[k], len(t), want[k], where),
                        keys=sorted(t.keys())[:10])
 
-    def diff(self, snap, target=None, completes=0, progress=0, calls_for=None, what="message", msg=None):
-        """After one router message: only ``target`` may have changed, exactly as predicted."""
+    def diff(self, snap, target=None, completes=0, progress=0, calls_for=None, what="message", msg=None, targets=None, tolerate_calls=()):
+        """After one router message: only ``target`` (or the ``targets`` {label: completions}) may have changed, exactly as predicted."""
         ok = True
+        if targets is None:
+            targets = {target: completes} if target is not None else {}
+        else:
+            target = sorted(targets)
         for l, r in self.reqs.items():
             b = snap.get(l, (0, 0, 0))
             dc = (len(r.outcome.results) if r.outcome else 0) - b[0]
             dp = len(r.progress) - b[1]
             dh = len(r.calls) - b[2]
-            wc = completes if l == target else 0
-            wp = progress if l == target else 0
+            wc = targets.get(l, 0)
+            wp = progress if l in targets else 0
             wh = 1 if (l in calls_for if isinstance(calls_for, (set, frozenset, list, tuple)) else l == calls_for) else 0
+            if l in tolerate_calls and dh in (0, 1):
+                wh = dh
             if dc != wc:
                 ok = False
-                if l == target:
+                if l in targets:
                     if dc > wc and progress:
                         self.v("call/reply-progress/future-completed", "a progressive RESULT completed the call's future",
                                results=short(r.outcome.results), msg=short(msg))
@@ -367,7 +433,7 @@ class Run:
                         l, r.wid, target), results=short(r.outcome.results[-1:]), msg=short(msg))
             if dp != wp:
                 ok = False
-                if l == target:
+                if l in targets:
                     self.v("call/reply-progress/%s" % ("handler-not-called" if dp < wp else "handler-called-extra"),
                            "own on_progress handler called %d times for one progressive RESULT" % dp, msg=short(msg))
                 else:
@@ -390,6 +456,8 @@ class Run:
         if st["op"] == "unsubscribe":
             target = self.reqs.get(st["of"])
             local = bool(target is not None and target.live and target.obj is not None and self.attached(target.assigned, but=target))
+        if st.get("sync") and not local:
+            return self.do_sync_request(st, snap)
         rq = self.api_call(st)
         if rq is None:
             return
@@ -397,6 +465,168 @@ class Run:
             self.verify_local_unsubscribe(rq, snap)
         else:
             self.verify_request(rq, snap)
+
+    # -- object forms: subscribe(obj) / register(obj) with @wamp.subscribe / @wamp.register decorated methods -----------------
+    @staticmethod
+    def is_pattern(uri):
+        """'a.<name>.b' is a URI pattern (the handler default is then match=wildcard); the URI itself travels as given."""
+        return any(c.startswith("<") and c.endswith(">") for c in uri.split("."))
+
+    def do_object_request(self, st):
+        """One API call, one request per decorated method: each must carry exactly its OWN method's options (the decorator's; else the
+        ``options=`` of the call; for a handler with neither: match=wildcard for a URI pattern, exact otherwise), ids sequential in
+        wire order; the single returned future completes once with, per request, the reply bearing that request's id."""
+        from autobahn import wamp
+        R = self.R
+        kind = "subscribe" if st["op"] == "subscribe_obj" else "register"
+        call_opts = st.get("opts")
+        grp = ObjGroup(st["n"], kind)
+        ns = {}
+        recs = []
+        for m in st["methods"]:
+            own = m.get("opts")
+            eff = own if own is not None else call_opts
+            pattern = self.is_pattern(m["uri"])
+            if eff is None and kind == "subscribe" and pattern:
+                eff = {"match": "wildcard"}
+            rq = Req(m["n"], kind, {"op": kind, "n": m["n"], "uri": m["uri"], "opts": eff, "own_opts": own, "method": m["name"]})
+            rq.group = grp
+            rq.outcome = ListOutcome()
+            recs.append(rq)
+
+            def make(rq=rq):
+                def method(self_, *a, **k):
+                    rq.calls.append((a, k))
+                    return "ret:%s:%d" % (rq.label, len(rq.calls))
+                return method
+            f = make()
+            f.__name__ = m["name"]
+            deco = wamp.subscribe if kind == "subscribe" else wamp.register
+            ns[m["name"]] = deco(m["uri"], options=build_options(kind, own, {}))(f) if own is not None else deco(m["uri"])(f)
+        obj = type("C04Object%d" % st["n"], (object,), ns)()
+        snap = self.snap()
+        for rq in recs:
+            self.reqs[rq.label] = rq
+        try:
+            o = build_options(kind, call_opts, {})
+            api = self.s.subscribe if kind == "subscribe" else self.s.register
+            ret = api(obj, options=o) if o is not None else api(obj)
+        except Exception as e:
+            for rq in recs:
+                rq.status = "broken"
+            self.v("%s/object-form/api-raised/%s" % (kind, type(e).__name__), "API call raised on a valid decorated object: %r" % (e,))
+            self.rp.recv()
+            self.dead = True
+            return
+        R.count("object_form_calls")
+        if not is_future(ret):
+            self.v("%s/object-form/no-future" % kind, "API call returned %r instead of a Deferred/Future" % (ret,))
+            self.dead = True
+            return
+        grp.fut = ret
+        grp.outcome = Outcome(ret)
+        self.groups.append(grp)
+        msgs = self.rp.recv()
+        if len(msgs) != len(recs) or any(not isinstance(m, list) or len(m) != 4 or m[0] != REQ_CODE[kind] for m in msgs):
+            self.v("%s/object-form/%s" % (kind, "wrong-number-of-requests" if len(msgs) != len(recs) else "wrong-message-type"),
+                   "expected %d %s messages (one per decorated method), the wire shows %s" % (len(recs), kind.upper(), short(msgs)))
+            self.dead = True
+            return
+        by_uri = {rq.spec["uri"]: rq for rq in recs}
+        for m in msgs:                                   # wire order = order of issue: the ids must be sequential in this order
+            rq = by_uri.pop(m[3], None)
+            if rq is None:
+                self.v("%s/object-form/uri" % kind, "request for URI %r matches no decorated method (or a second one for the same)" % (m[3],), msg=short(m))
+                self.dead = True
+                return
+            rq.status = "pending"
+            grp.members.append(rq)
+            R.count("wire_requests_compared")
+            R.count("object_form_requests_compared")
+            R.count("requests_issued_" + kind)
+            R.seen("object_form_option_sources", "%s:%s:%s" % (kind, "own" if rq.spec["own_opts"] is not None else ("call" if call_opts is not None else "default"),
+                                                                 ",".join(sorted(rq.spec["opts"] or {})) or "-"))
+            self.check_wire(rq, m, [], {}, rq.spec["opts"])
+        self.world_settle()
+        if grp.outcome.results:
+            self.v("%s/object-form/completed-before-reply" % kind, "future completed before any reply was sent", results=short(grp.outcome.results))
+        self.diff(snap, what="request-%s-object" % kind)
+        f = self.failed()
+        if f:
+            self.v("%s/request/transport-failed" % kind, "transport failed while issuing a request: %r" % (f,))
+            self.dead = True
+        self.check_tables("after %s(obj)" % kind)
+
+    def group_reply_targets(self, rq):
+        """Completions visible after a reply to a member of an object-form call: none until the LAST member is answered, then all."""
+        grp = rq.group
+        if any(m.status == "pending" and m is not rq for m in grp.members):
+            return {rq.label: 0}
+        return {m.label: 1 for m in grp.members}
+
+    def group_after_reply(self, rq, ok, what):
+        """Unpack the single future of an object-form call once every member has been answered."""
+        grp = rq.group
+        if any(m.status == "pending" for m in grp.members):
+            if grp.outcome.results:
+                self.v("%s/object-form/completed-early" % rq.kind, "future completed while requests of the call are still unanswered",
+                       results=short(grp.outcome.results))
+            return
+        res = grp.outcome.results
+        if grp.unpacked:
+            return
+        grp.unpacked = True
+        if len(res) != 1 or res[0][0] != "ok" or not isinstance(res[0][1], (list, tuple)) or len(res[0][1]) != len(grp.members):
+            self.v("%s/object-form/%s" % (rq.kind, "not-completed" if not res else "wrong-result"),
+                   "after the last reply the future of the call shows %s (expected one list with %d entries)" % (short(res), len(grp.members)))
+            return
+        for m, val in zip(grp.members, res[0][1]):      # entry i belongs to the i-th request issued
+            if hasattr(val, "value") and hasattr(val, "getTraceback"):
+                val = val.value                           # twisted Failure
+            m.outcome.results.append(("err", val) if isinstance(val, BaseException) else ("ok", val))
+            mode, args, kwargs, st, msg = m.reply_ctx
+            self.check_completion(m, mode, args, kwargs, st, m.spec.get("opts") or {}, msg)
+            self.R.count("object_form_completions_compared")
+
+    def do_sync_request(self, st, snap):
+        """The router's reply re-enters onMessage() from inside the transport's send(), i.e. before the API call has returned."""
+        R = self.R
+        if not isinstance(self.s._transport, SyncTransport):
+            self.s._transport = SyncTransport(self.s._transport, self)
+        plan = self.sync_plan = {"label": st["n"], "reply": st["sync"], "msgs": None, "sent": None}
+        try:
+            rq = self.api_call(st)
+        finally:
+            self.sync_plan = None
+        if rq is None:
+            return
+        kind, mode = rq.kind, st["sync"]["mode"]
+        what = "sync-reply-%s" % mode
+        self.verify_request(rq, None, msgs=plan["msgs"] if plan["msgs"] is not None else [], where="request")
+        if self.dead or plan["sent"] is None:
+            return
+        msg, args, kwargs = plan["sent"]
+        self.nontrivial = True
+        self.world_settle()
+        f = self.failed()
+        if f:
+            self.v("%s/%s/transport-failed" % (kind, what), "a reply delivered from inside send() failed the transport: %r" % (f,), msg=short(msg))
+            self.dead = True
+            return
+        extra = self.rp.recv()
+        if extra:
+            self.v("%s/%s/unexpected-wire-message" % (kind, what), "the session sent messages in reaction to a reply", msgs=short(extra))
+        ok = self.diff(snap, target=rq.label, completes=1 if rq.outcome is not None else 0, what=what, msg=msg)
+        if rq.status == "pending":
+            rq.status = "answered"
+            rq.final_msg = msg
+            rq.final_mode = mode
+            if ok:
+                self.check_completion(rq, mode, args, kwargs, st["sync"], rq.spec.get("opts") or {}, msg)
+                R.count("replies_%s_%s" % ("ok" if mode == "ok" else "error", kind))
+                R.count("sync_replies_delivered")
+                R.seen("sync_reply_kinds", "%s:%s" % (kind, mode))
+        self.check_tables("after %s for %s" % (what, kind))
 
     def verify_local_unsubscribe(self, rq, snap):
         """Other handlers stay attached to the subscription: nothing goes over the wire, no request id is spent (the ids of all
@@ -699,9 +929,9 @@ class Run:
                 R.seen("send_failure_record_retained", kind)
                 # steering only: the id of such a record is not an "unknown id" for the unmatched-reply step
                 self.orphan_ids.update(set(t.keys()) - {r.wid for r in self.reqs.values() if r.status == "pending"})
-                for rec in t.values():
+                for key, rec in t.items():
                     fut = getattr(rec, "on_reply", None)
-                    if is_future(fut) and id(fut) not in self.orphans and all(r.fut is not fut for r in self.reqs.values()):
+                    if key in self.orphan_ids and is_future(fut) and id(fut) not in self.orphans:
                         self.orphans[id(fut)] = Outcome(fut)      # observe only: it must never be resolved with a value
             elif len(t) != want[kind]:
                 self.v("%s/send-failure/pending-retained" % kind, "session.%s keeps %d entries after a failed send (model: %d)" % (
@@ -752,7 +982,7 @@ class Run:
         what = "reply-%s" % mode
         opts = rq.spec.get("opts") or {}
         snap = self.snap()
-        if st.get("then") and st["then"]["n"] not in self.reqs:
+        if st.get("then") and st["then"]["n"] not in self.reqs and rq.fut is not None:
             self.arm_nested(rq, "progress" if mode == "progress" else "completion", st["then"])
         cut = st.get("cut")
         if cut is not None:
@@ -785,6 +1015,16 @@ class Run:
                 self.check_progress(rq, args, kwargs, st, opts)
                 R.count("progressive_delivered")
             R.seen("reply_shapes", "progress:%s:%s" % ("details" if opts.get("details") else "plain", self.shape_class(args, kwargs)))
+        elif rq.group is not None:
+            # one request of an object-form call: its result becomes visible when the call's single future completes
+            targets = self.group_reply_targets(rq)
+            rq.status = "answered"
+            rq.final_msg = msg
+            rq.final_mode = mode
+            rq.reply_ctx = (mode, args, kwargs, st, msg)
+            self.group_after_reply(rq, True, what)
+            if self.diff(snap, targets=targets, what=what, msg=msg):
+                R.count("replies_%s_%s" % ("ok" if mode == "ok" else "error", rq.kind))
         else:
             ok = self.diff(snap, target=rq.label, completes=1, what=what, msg=msg)
             rq.status = "answered"
@@ -793,6 +1033,8 @@ class Run:
             if ok:
                 self.check_completion(rq, mode, args, kwargs, st, opts, msg)
                 R.count("replies_%s_%s" % ("ok" if mode == "ok" else "error", rq.kind))
+                if self.inflight_seen:
+                    R.count("own_reply_completions_after_inflight_delivery")
             R.seen("reply_shapes", "%s:%s:%s" % (rq.kind, mode, self.shape_class(args, kwargs)))
         self.check_tables("after %s for %s" % (what, rq.kind))
 
@@ -884,8 +1126,49 @@ class Run:
         # unsubscribe / unregister: success carries no content
 
     # -- EVENT / INVOCATION --------------------------------------------------------------------
+    def inflight_of(self, rq):
+        """The pending unsubscribe / unregister request (UNSUBSCRIBE / UNREGISTER sent, not yet answered) for rq, if any."""
+        for r in self.reqs.values():
+            if r.of is rq and r.status == "pending" and r.wid is not None:
+                return r
+        return None
+
+    def do_inflight_delivery(self, st, rq, msg, what):
+        """EVENT / INVOCATION that the router dispatched before it processed our UNSUBSCRIBE / UNREGISTER: a conforming peer produces
+        this interleaving; it must not fail the transport nor touch any other request (whether the detached callable still runs is not
+        judged here)."""
+        R = self.R
+        outstanding = [r for r in self.reqs.values() if r.status == "pending"]
+        snap = self.snap()
+        self.rp.send(msg)
+        self.nontrivial = True
+        f = self.failed()
+        if f:
+            self.v("%s/in-flight-%s/transport-failed" % (what, "unsubscribe" if what == "event" else "unregister"),
+                   "%s delivered between %s and its reply failed the transport: %r (outstanding requests: %s)" % (
+                       what.upper(), "UNSUBSCRIBE" if what == "event" else "UNREGISTER", f, sorted(r.kind for r in outstanding)), msg=short(msg))
+            self.dead = True
+            return
+        out = self.rp.recv()
+        for m in out:
+            if isinstance(m, list) and m and m[0] in ALL_REQ_CODES:
+                self.v("%s/in-flight/request-message-sent" % what, "the session sent a request message in reaction to it", msg=short(m))
+        self.diff(snap, what="in-flight-%s" % what, msg=msg, tolerate_calls=(rq.label,))
+        R.count("events_during_unsubscribe" if what == "event" else "invocations_during_unregister")
+        R.count("outstanding_across_inflight_delivery", len(outstanding))
+        self.inflight_seen = True
+        self.check_tables("after in-flight %s" % what)
+
     def do_event(self, st):
         rq = self.reqs.get(st["sub"])
+        if st.get("inflight"):
+            if rq is None or rq.kind != "subscribe" or rq.live or rq.assigned is None or self.inflight_of(rq) is None or self.attached(rq.assigned):
+                self.R.count("skipped_steps")
+                return
+            args = [jd(x) for x in st.get("args") or []]
+            kwargs = {k: jd(x) for k, x in (st.get("kwargs") or {}).items()}
+            msg = [36, rq.assigned, st["pubid"], {}] + ([args, kwargs] if kwargs else ([args] if args else []))
+            return self.do_inflight_delivery(st, rq, msg, "event")
         if rq is None or not rq.live or rq.kind != "subscribe":
             self.R.count("skipped_steps")
             return
@@ -923,6 +1206,15 @@ class Run:
 
     def do_invoke(self, st):
         rq = self.reqs.get(st["reg"])
+        if st.get("inflight"):
+            if rq is None or rq.kind != "register" or rq.live or rq.assigned is None or self.inflight_of(rq) is None or st["invid"] in self.inv_seen:
+                self.R.count("skipped_steps")
+                return
+            self.inv_seen.add(st["invid"])
+            args = [jd(x) for x in st.get("args") or []]
+            kwargs = {k: jd(x) for k, x in (st.get("kwargs") or {}).items()}
+            msg = [68, st["invid"], rq.assigned, {}] + ([args, kwargs] if kwargs else ([args] if args else []))
+            return self.do_inflight_delivery(st, rq, msg, "invocation")
         if rq is None or not rq.live or rq.kind != "register" or st["invid"] in self.inv_seen:
             self.R.count("skipped_steps")
             return
@@ -1052,6 +1344,8 @@ class Run:
                 op = st["op"]
                 if op in REQ_CODE:
                     self.do_request(st)
+                elif op in ("subscribe_obj", "register_obj"):
+                    self.do_object_request(st)
                 elif op == "sendfail":
                     self.do_sendfail(st)
                 elif op == "reply":
@@ -1096,6 +1390,9 @@ class Run:
             if att > 1:
                 self.v("%s/second-completion-attempt" % r.kind, "the library tried to complete the same future %d times" % att,
                        results=short(r.outcome.results))
+        for grp in self.groups:
+            if len(grp.outcome.results) > 1:
+                self.v("%s/object-form/completed-twice" % grp.kind, "future of the call completed %d times" % len(grp.outcome.results))
         for o in self.orphans.values():
             if any(tag == "ok" for tag, _ in o.results):
                 self.v("send-failure/orphan-record-resolved", "the record kept after a failed send was later resolved with a value: %s" % short(o.results))
